@@ -227,6 +227,14 @@ TRANSLATED = [
     (M, 'calculate_grid_mask_bounds', 'trans_masking', ['Ems.Gen.msBoundsProg'], ['Ems.C08.bounds_generated', 'Ems.C08.bounds_slice_generated']),
     (M, 'mask_grid_data_array', 'trans_masking', ['Ems.Gen.msApplyProg'], ['Ems.C08.apply_generated']),
     (M, 'mask_grid_dataset', 'trans_masking', ['Ems.Gen.msDatasetSteps'], ['Ems.C08.dataset_steps_generated', 'Ems.C08.clip_var_from_source']),
+    # ---- C17: EMS time units and fill decisions (harness/trans_timeunits.py -> Gen/TimeUnitsSrc.lean)
+    (UT, 'format_time_units_for_ems', 'trans_timeunits', ['Ems.Gen.tuFormatProg', 'Ems.Gen.tuNewUnits'], ['Ems.C17.src_format_spec', 'Ems.C17.src_template_spec']),
+    (UT, 'disable_default_fill_value', 'trans_timeunits', ['Ems.Gen.tuFillProg'], ['Ems.C17.src_fill_spec']),
+    (UT, '_get_variables', 'trans_timeunits', ['Ems.Gen.tuFillProg'], ['Ems.C17.src_fill_spec']),
+    (UT, 'fix_time_units_for_ems', 'trans_timeunits', ['Ems.Gen.tuFixSteps'], ['Ems.C17.src_fix_spec']),
+    (B, 'Convention.time_coordinate', 'trans_timeunits', ['Ems.Gen.tuTimeCoordGeneric', 'Ems.Gen.tuTimeCoordOwners'], ['Ems.C17.src_time_coordinate_generic', 'Ems.C17.src_time_coordinate_owners']),
+    (S, 'ShocStandard.time_coordinate', 'trans_timeunits', ['Ems.Gen.tuTimeCoordShocStandard'], ['Ems.C17.src_time_coordinate_shoc']),
+    (S, 'ShocSimple.time_coordinate', 'trans_timeunits', ['Ems.Gen.tuTimeCoordShocSimple'], ['Ems.C17.src_time_coordinate_shoc']),
     # ---- earlier phases (harness/pipelines.py -> Gen/Pipelines.lean; harness/tables.py -> Gen/Tables.lean)
     (G, 'CFGrid1D._make_polygons', 'pipelines', ['Ems.Gen.cf1dPolygonPoints'], ['Ems.C06.cf1d_pipeline_spec']),
     (G, 'CFGrid2D._make_polygons', 'pipelines', ['Ems.Gen.cf2dPolygonPoints'], ['Ems.C06.cf2d_pipeline_spec']),
